@@ -75,6 +75,15 @@ func Special(ss ...string) bool {
 
 // ---- type codes ----
 
+// user-defined named types: parse.String goes by kind, except for its exact-type tests
+// ([]string, map[string][]string, map[string]struct{}, time.Duration)
+type Label string
+type Names []string
+type Level uint8
+type Env map[string]string
+type MyDur time.Duration
+type MySet map[string]struct{}
+
 var atoms = map[string]struct {
 	t    reflect.Type
 	term string
@@ -87,6 +96,12 @@ var atoms = map[string]struct {
 	"u32": {reflect.TypeOf(uint32(0)), "(TUint U32)"}, "u64": {reflect.TypeOf(uint64(0)), "(TUint U64)"},
 	"uint": {reflect.TypeOf(uint(0)), "(TUint UInt)"}, "uptr": {reflect.TypeOf(uintptr(0)), "(TUint UPtr)"},
 	"dur":   {reflect.TypeOf(time.Duration(0)), "TDur"},
+	"lbl":   {reflect.TypeOf(Label("")), "(TNamed TStr)"},
+	"names": {reflect.TypeOf(Names{}), "(TNamed (TSlice TStr))"},
+	"lvl":   {reflect.TypeOf(Level(0)), "(TNamed (TUint U8))"},
+	"nenv":  {reflect.TypeOf(Env{}), "(TNamed (TMap TStr TStr))"},
+	"ndur":  {reflect.TypeOf(MyDur(0)), "(TNamed TDur)"},
+	"nset":  {reflect.TypeOf(MySet{}), "(TNamed TSet)"},
 	"other": {reflect.TypeOf((*int)(nil)), "TOther"},
 	"set":   {reflect.TypeOf(map[string]struct{}{}), "TSet"},
 	"mss":   {reflect.TypeOf(map[string][]string{}), "TMss"},
